@@ -18,7 +18,7 @@ import GLua.Model.ApiObj
     hcall tostring|len|concat n <fn> <arg…> ; op ; op … => <result> ok <list>
                                                              (ToStringMeta / ObjLen / Concat on an object whose handler is a host
                                                               function performing the ops and returning n: `callHandler`)
-    concat0 => s<hex> | gopanic                              (Concat() with no operand: reads the register below the top)
+    concat0 => s<hex> | gopanic                              (Concat() with no operand: the empty string)
     concatres <value of the Lua expression> => s<hex>        (Concat's string vs. the value of `a .. b` on the same operands)
     pcallfailat nargs fn|meta path ; <pushed…> / nargs fn|meta ; … ; <last…> ; <hjunk…> => ok <list>
                                                              (a protected call failing inside nested host activations: `pcallFailAt`)
@@ -114,9 +114,6 @@ def engHeap : Meta.Heap Int where
 def asStringTok (v : OVal) : String := "s" ++ MetaModel.lvAsString engPrims (toV v)
 
 def bad : Verdict := { model := some "bad-op" }
-
-/-- the positive indices whose register number `base + idx - 1` leaves the range of a Go int (finding C10-index-int-overflow). -/
-def overflowIdx (m : ApiStack.St) (i : Int) : Bool := decide (i > 0 ∧ (m.base : Int) + i - 1 > maxInt)
 
 def showGet (r : Except Err Slot) : String :=
   match r with
@@ -221,12 +218,9 @@ def handle (st : St) (ws : List String) : St × Verdict :=
     | ["insert", v, i] =>
       match parseVal v, parseInt i with
       | some v, some i =>
-        let (st', vd) := mutVerdict impl (insert st.m v i) (some (StackSpec.insert st.spec v i)) st
-        -- known class: Insert at an index beyond top+1 leaves Go nil slots inside the list
-        if i > (st.spec.length : Int) + 1 ∧ vd.model.isNone then
-          (st', { vd with spec := some ("KF:C10-insert-beyond-top-gap Insert(v, " ++ toString i ++ ") with top=" ++
-              toString st.spec.length ++ " leaves Go nil (not LNil) slots inside the list") })
-        else (st', vd)
+        -- beyond top+1 the Spec prescribes no list (`none`): mutVerdict then requires a list of LValues (a Go nil slot
+        -- inside 1..top — the class of the repaired C10-insert-beyond-top-gap — is "not a list of LValues")
+        mutVerdict impl (insert st.m v i) (some (StackSpec.insert st.spec v i)) st
       | _, _ => (st, bad)
     | ["remove", i] =>
       match parseInt i with
@@ -243,8 +237,7 @@ def handle (st : St) (ws : List String) : St × Verdict :=
             | .error e => some e.show
             | .ok _ => some "ok"
           (st, { model := mv,
-                 spec := some ((if mv.isNone ∧ overflowIdx st.m i then "KF:C10-index-int-overflow " else "") ++
-                   "Replace(" ++ toString i ++ ") outside the list must have no effect: Go runtime panic") })
+                 spec := some ("Replace(" ++ toString i ++ ") outside the list must have no effect: Go runtime panic") })
         else mutVerdict impl mres (some (some (StackSpec.replace st.spec i v))) st
       | _, _ => (st, bad)
     | "resync" :: c :: slots =>
@@ -307,8 +300,7 @@ def handle (st : St) (ws : List String) : St × Verdict :=
       | some i =>
         let mres := showGet (lget { st := st.m, p := st.p } i)
         let sres := (StackSpec.getAny st.spec st.cells i).show
-        let kf := if impl = ["gopanic"] ∧ mres = "gopanic" ∧ overflowIdx st.m i then "KF:C10-index-int-overflow " else ""
-        (st, { model := cmpModel mres impl, spec := if impl = [sres] then none else some (kf ++ "spec get " ++ sres) })
+        (st, { model := cmpModel mres impl, spec := if impl = [sres] then none else some ("spec get " ++ sres) })
       | none => (st, bad)
     | ["gettop"] =>
       (st, { model := cmpModel (toString (getTop st.m)) impl,
@@ -389,26 +381,15 @@ def handle (st : St) (ws : List String) : St × Verdict :=
         | _, _ => (st, bad)
       | _, _, _ => (st, bad)
     | ["concat0"] =>
-      let below : Option (Meta.V Int) :=
-        if st.m.reg.top = 0 then none
-        else some (match st.m.reg.array.getD (st.m.reg.top - 1) .goNil with
-          | .goNil => .nil
-          | .val v => toV v)
-      let mres := match ApiObj.Concat engPrims engHeap (fun _ _ => .nil) [] below with
+      -- Model: `if len(values) == 0 { return "" }` — nothing below the top is read; Spec: the concatenation of no
+      -- strings is the empty string
+      let mres := match ApiObj.Concat engPrims engHeap (fun _ _ => .nil) [] with
         | .goPanic _ => "gopanic"
         | .res _ (.ok t) => "s" ++ t
         | .res _ (.error _) => "err"
       let got := " ".intercalate impl
-      -- a non-integral number below the top: its formatting is Go's business, only "a non-empty string" is compared
-      let isFlt : Bool := decide (st.m.reg.top > 0) && (match st.m.reg.array.getD (st.m.reg.top - 1) .goNil with
-        | .val (some (.flt _)) => true
-        | _ => false)
-      let mv := if isFlt then (if got.startsWith "s" ∧ got ≠ "s" then none else some "s<number>")
-                else if got = mres then none else some mres
-      -- Spec: the concatenation of no strings is the empty string
-      (st, { model := mv,
-             spec := if got = "s" then none else
-               some ((if mv.isNone then "KF:C10-concat-no-operand " else "") ++ "Concat() = " ++ got ++ ", expected the empty string") })
+      (st, { model := if got = mres then none else some mres,
+             spec := if got = "s" then none else some ("Concat() = " ++ got ++ ", expected the empty string") })
     | ["concatres", lres] =>
       match parseVal lres with
       | some lv =>
